@@ -73,6 +73,15 @@ def truth_check(rows, cond_key, term_key, spec, feasible=None, limit_atoms=16):
     problems = []
     prepared = []
     universe = []
+
+    def atoms_of(key):
+        """a key is an atom, or ("OR", atom, atom, ...): `exists x in L: p(x) or q(x)` = (exists x: p(x)) or (exists x: q(x))"""
+        return list(key[1:]) if isinstance(key, tuple) and key and key[0] == "OR" else [key]
+
+    def ev(key, assign):
+        if isinstance(key, tuple) and key and key[0] == "OR":
+            return any(assign.get(a) for a in key[1:])
+        return assign.get(key)
     for r in rows:
         req = {}
         bad = False
@@ -92,16 +101,19 @@ def truth_check(rows, cond_key, term_key, spec, feasible=None, limit_atoms=16):
                 bad = True
                 break
             req[key] = val
-            if key not in universe:
-                universe.append(key)
+            for a_ in atoms_of(key):
+                if a_ not in universe:
+                    universe.append(a_)
         if bad:
             continue
         # atoms in the return expression
         for x in T.walk(r.ret):
             if x[0] in ("call", "field", "param", "deref"):
                 tk = term_key(x)
-                if tk is not None and tk not in universe:
-                    universe.append(tk)
+                if tk is not None:
+                    for a_ in atoms_of(tk):
+                        if a_ not in universe:
+                            universe.append(a_)
         prepared.append((req, r))
     if len(universe) > limit_atoms:
         problems.append(("too-many-atoms", None, str(universe)))
@@ -117,12 +129,12 @@ def truth_check(rows, cond_key, term_key, spec, feasible=None, limit_atoms=16):
         n += 1
         vals = set()
         for req, r in prepared:
-            if all(assign[k] == v for k, v in req.items()):
+            if all(ev(k, assign) == v for k, v in req.items()):
                 def val(t, assign=assign):
                     tk = term_key(t)
                     if tk is None:
                         return None
-                    return assign.get(tk)
+                    return ev(tk, assign)
                 vals.add(eval_bool(r.ret, val))
         if not vals:
             problems.append(("no-row", assign, "no path covers this valuation"))
